@@ -2,7 +2,7 @@
 //! law of midnight-curves as reference semantics.
 
 use midnight_circuits::{
-    ecc::{curves::CircuitCurve, hash_to_curve::HashToCurveGadget, native::EccChip},
+    ecc::{hash_to_curve::HashToCurveGadget, native::EccChip},
     field::foreign::params::MultiEmulationParams as MEP,
     hash::poseidon::PoseidonChip,
     instructions::*,
@@ -18,7 +18,6 @@ use midnight_proofs::{
 };
 use midnight_zk_stdlib::{ZkStdLib, ZkStdLibArch};
 use num_bigint::BigUint;
-use num_traits::Zero;
 use vgad::{val::*, Exposer, Judgement, OpCase, F};
 
 use crate::refs::*;
@@ -115,6 +114,11 @@ pub enum Op {
     HashToCurve(usize),
     // --- BLS12-381 only
     AssertInSubgroup,
+    /// The three public calls `assert_in_bls12_381_subgroup` consists of — assign a cofactor
+    /// root, `mul_by_constant(cofactor, root)`, `assert_equal(p, ·)` — issued with a root chosen
+    /// by the prover (second input) instead of the one the library's witness code computes:
+    /// same constraints, different witness. Must be unsatisfiable when p is outside G1.
+    SubgroupCheckChosenRoot,
 }
 
 #[derive(Clone, Copy, Debug, PartialEq)]
@@ -175,7 +179,7 @@ impl Op {
             | AssertNonZero | MulByConst(_) | AssertInSubgroup => vec![Ty::Pt],
             AssignFixed(_) => vec![],
             FromCoords => vec![Ty::Co, Ty::Co],
-            Add | IsEqual | IsNotEqual | AssertEqual | AssertNotEqual => vec![Ty::Pt, Ty::Pt],
+            Add | IsEqual | IsNotEqual | AssertEqual | AssertNotEqual | SubgroupCheckChosenRoot => vec![Ty::Pt, Ty::Pt],
             Select | CondSwap | CondAssertEqual => vec![Ty::Bit, Ty::Pt, Ty::Pt],
             Msm { ns, nb, .. } => {
                 let mut v = vec![Ty::Sc(JUB_SCALAR_BITS); *ns];
@@ -197,7 +201,7 @@ impl Op {
         use Op::*;
         match self {
             Assign | AssertEqual | AssertNotEqual | AssertEqualToFixed(_) | AssertNotEqualToFixed(_) | AssertZero | AssertNonZero | CondAssertEqual
-            | AssertInSubgroup => vec![],
+            | AssertInSubgroup | SubgroupCheckChosenRoot => vec![],
             AssignFixed(_) | FromCoords | Add | Double | Negate | Select | Msm { .. } | MulByConst(_) | MulBytes(_) | MulNative | HashToCurve(_) => vec![Ty::Pt],
             Coords => vec![Ty::Co, Ty::Co],
             IsEqual | IsNotEqual | IsEqualToFixed(_) | IsZero => vec![Ty::Bit],
@@ -297,9 +301,37 @@ pub fn htc_cpu(inputs: &[F]) -> RP {
     RP::J(p.into())
 }
 
-/// Reference semantics on decoded inputs. `None` = the inputs are outside the operation's domain
-/// (the circuit must be unsatisfiable).
-pub fn reference(cv: Cv, op: &Op, ins: &[D]) -> Option<Vec<D>> {
+/// What the reference says about decoded inputs.
+pub enum Ref {
+    /// the unique admissible outputs
+    Out(Vec<D>),
+    /// the inputs are outside the operation's domain: the circuit must be unsatisfiable
+    Reject,
+    /// a precondition that the documentation leaves to the caller (and explicitly does not
+    /// enforce) is violated: nothing is promised about the outputs
+    NoContract,
+}
+
+pub fn reference(cv: Cv, op: &Op, ins: &[D]) -> Ref {
+    if let Op::Msm { terms, bounds: Some(bs), .. } = op {
+        for (k, (s, _)) in terms.iter().enumerate() {
+            let sv = match s {
+                SRef::In(i) => ins[*i].int(),
+                SRef::Fixed(c) => c.v.clone(),
+            };
+            if sv.bits() as usize > bs[k] {
+                // msm_by_bounded_scalars: "the bounds are not enforced with constraints here"
+                return Ref::NoContract;
+            }
+        }
+    }
+    match reference_inner(cv, op, ins) {
+        Some(o) => Ref::Out(o),
+        None => Ref::Reject,
+    }
+}
+
+fn reference_inner(cv: Cv, op: &Op, ins: &[D]) -> Option<Vec<D>> {
     use Op::*;
     let pt = |i: usize| ins[i].pt();
     let assert = |c: bool| if c { Some(vec![]) } else { None };
@@ -333,19 +365,13 @@ pub fn reference(cv: Cv, op: &Op, ins: &[D]) -> Option<Vec<D>> {
         Select => Some(vec![if ins[0].bit() { ins[1].clone() } else { ins[2].clone() }]),
         CondSwap => Some(if ins[0].bit() { vec![ins[2].clone(), ins[1].clone()] } else { vec![ins[1].clone(), ins[2].clone()] }),
         CondAssertEqual => assert(!ins[0].bit() || pt(1) == pt(2)),
-        Msm { ns, terms, bounds, .. } => {
+        Msm { ns, terms, .. } => {
             let mut acc = RP::identity(cv);
-            for (k, (s, b)) in terms.iter().enumerate() {
+            for (s, b) in terms.iter() {
                 let sv = match s {
                     SRef::In(i) => ins[*i].int(),
                     SRef::Fixed(c) => c.v.clone(),
                 };
-                if let Some(bs) = bounds {
-                    if sv.bits() as usize > bs[k] {
-                        // the caller's promise s < 2^bound does not hold: outside the contract
-                        return None;
-                    }
-                }
                 let bv = match b {
                     BRef::In(j) => *ins[ns + *j].pt(),
                     BRef::Fixed(p) => p.rp,
@@ -369,7 +395,7 @@ pub fn reference(cv: Cv, op: &Op, ins: &[D]) -> Option<Vec<D>> {
             let xs: Vec<F> = ins.iter().map(|d| if let D::Nat(x) = d { *x } else { unreachable!() }).collect();
             Some(vec![dpt(htc_cpu(&xs))])
         }
-        AssertInSubgroup => assert(pt(0).in_subgroup()),
+        AssertInSubgroup | SubgroupCheckChosenRoot => assert(pt(0).in_subgroup()),
     }
 }
 
@@ -378,6 +404,10 @@ pub struct Case {
     pub cv: Cv,
     pub op: Op,
     pub ins: Vec<V>,
+    /// The inputs violate an assumption that the chip's documentation states for the curve
+    /// (foreign chip: "the curve must not have low-order points"): completeness is not required,
+    /// but an accepted run must still be correct.
+    pub lenient: bool,
 }
 
 impl Case {
@@ -415,7 +445,7 @@ impl Case {
 
 impl OpCase for Case {
     fn key(&self) -> String {
-        format!("{}:{}[{}]", self.cv.name(), self.op.describe(), self.ins.iter().map(|v| v.show()).collect::<Vec<_>>().join(","))
+        format!("{}:{}[{}]{}", self.cv.name(), self.op.describe(), self.ins.iter().map(|v| v.show()).collect::<Vec<_>>().join(","), if self.lenient { "~" } else { "" })
     }
     fn op(&self) -> String {
         format!("{}:{}", self.cv.name(), self.op.name())
@@ -442,7 +472,7 @@ impl OpCase for Case {
                 }
             }
         }
-        reference(self.cv, &self.op, &own).is_some()
+        !self.lenient && matches!(reference(self.cv, &self.op, &own), Ref::Out(_))
     }
     fn judge(&self, ins: &[Vec<F>], outs: &[Vec<F>]) -> Judgement {
         let tys = self.op.in_types();
@@ -463,8 +493,10 @@ impl OpCase for Case {
                 Err(e) => return Judgement::Wrong(format!("input {i}: {e}")),
             }
         }
-        let Some(expect) = reference(self.cv, &self.op, &dec) else {
-            return Judgement::Wrong(format!("inputs {:?} are outside the operation's domain", dec.iter().map(|d| d.show()).collect::<Vec<_>>()));
+        let expect = match reference(self.cv, &self.op, &dec) {
+            Ref::Out(e) => e,
+            Ref::NoContract => return Judgement::Holds,
+            Ref::Reject => return Judgement::Wrong(format!("inputs {:?} are outside the operation's domain", dec.iter().map(|d| d.show()).collect::<Vec<_>>())),
         };
         let otys = self.op.out_types();
         if outs.len() != expect.len() || outs.len() != otys.len() {
@@ -736,14 +768,24 @@ fn special_secp<L: Layouter<F>>(_case: &Case, _std: &ZkStdLib, _l: &mut L, _ex: 
 
 /// BLS-only operations.
 fn special_bls<L: Layouter<F>>(case: &Case, std: &ZkStdLib, l: &mut L, ex: &Exposer) -> Result<bool, Error> {
-    if !matches!(case.op, Op::AssertInSubgroup) {
+    if !matches!(case.op, Op::AssertInSubgroup | Op::SubgroupCheckChosenRoot) {
         return Ok(false);
     }
     let chip = std.bls12_381_curve();
     let V::Pt(p) = &case.ins[0] else { unreachable!() };
     let a: BlsPt = AssignmentInstructions::<F, BlsPt>::assign(chip, l, Value::known(p.rp.bls_value()))?;
     ex.input_with(chip, std, l, &a)?;
-    chip.assert_in_bls12_381_subgroup(l, &a)?;
+    if matches!(case.op, Op::AssertInSubgroup) {
+        chip.assert_in_bls12_381_subgroup(l, &a)?;
+    } else {
+        let V::Pt(root) = &case.ins[1] else { unreachable!() };
+        let root: BlsPt = AssignmentInstructions::<F, BlsPt>::assign(chip, l, Value::known(root.rp.bls_value()))?;
+        ex.input_with(chip, std, l, &root)?;
+        // the cofactor constant of ecc_chip.rs
+        let cofactor = F::from_raw([0x8c00aaab0000aaab, 0x396c8c005555e156, 0, 0]);
+        let m = chip.mul_by_constant(l, cofactor, &root)?;
+        AssertionInstructions::<F, BlsPt>::assert_equal(chip, l, &a, &m)?;
+    }
     Ok(true)
 }
 
@@ -776,16 +818,3 @@ gen_synth!(
     assign_co = |std, l, v| std.bls12_381_curve().base_field_chip().assign(l, Value::known(bfp_of(v))),
     expose_co = |std, l, ex, is_out, x| expose!(ex, is_out, std.bls12_381_curve().base_field_chip(), std, l, x)
 );
-
-/// Is this a valid value of the assignment type of its curve (used when building the alphabets)?
-pub fn assignable(cv: Cv, p: &RP) -> bool {
-    !cv.type_promises_subgroup() || p.in_subgroup()
-}
-
-#[allow(dead_code)]
-pub fn zero() -> BigUint {
-    BigUint::zero()
-}
-
-#[allow(dead_code)]
-fn _unused(_: <JubjubExtended as CircuitCurve>::Base) {}
